@@ -22,32 +22,32 @@ variable {α : Type} (key : α → Int)
 /-! ### the six operators are the lexicographic order (`lexCmp` is the specification) -/
 
 theorem lt_is_lex (a b : List α) : opLt key a b = (lexCmp key a b == .lt) := by
-  simp only [opLt, opEq, opGt, opGe, opLe, opNe, lexLt_eq_cmp, equal4_eq_cmp]
+  simp only [opLt, opEq, opGt, opGe, opLe, opNe, lexLt_eq_cmp, equal4_eq_cmp, equal3_guarded]
   try simp only [lexCmp_swap key a b]
   try (cases lexCmp key a b <;> rfl)
 
 theorem eq_is_lex (a b : List α) : opEq key a b = (lexCmp key a b == .eq) := by
-  simp only [opLt, opEq, opGt, opGe, opLe, opNe, lexLt_eq_cmp, equal4_eq_cmp]
+  simp only [opLt, opEq, opGt, opGe, opLe, opNe, lexLt_eq_cmp, equal4_eq_cmp, equal3_guarded]
   try simp only [lexCmp_swap key a b]
   try (cases lexCmp key a b <;> rfl)
 
 theorem gt_is_lex (a b : List α) : opGt key a b = (lexCmp key a b == .gt) := by
-  simp only [opLt, opEq, opGt, opGe, opLe, opNe, lexLt_eq_cmp, equal4_eq_cmp]
+  simp only [opLt, opEq, opGt, opGe, opLe, opNe, lexLt_eq_cmp, equal4_eq_cmp, equal3_guarded]
   try simp only [lexCmp_swap key a b]
   try (cases lexCmp key a b <;> rfl)
 
 theorem ge_is_lex (a b : List α) : opGe key a b = (lexCmp key a b != .lt) := by
-  simp only [opLt, opEq, opGt, opGe, opLe, opNe, lexLt_eq_cmp, equal4_eq_cmp]
+  simp only [opLt, opEq, opGt, opGe, opLe, opNe, lexLt_eq_cmp, equal4_eq_cmp, equal3_guarded]
   try simp only [lexCmp_swap key a b]
   try (cases lexCmp key a b <;> rfl)
 
 theorem le_is_lex (a b : List α) : opLe key a b = (lexCmp key a b != .gt) := by
-  simp only [opLt, opEq, opGt, opGe, opLe, opNe, lexLt_eq_cmp, equal4_eq_cmp]
+  simp only [opLt, opEq, opGt, opGe, opLe, opNe, lexLt_eq_cmp, equal4_eq_cmp, equal3_guarded]
   try simp only [lexCmp_swap key a b]
   try (cases lexCmp key a b <;> rfl)
 
 theorem ne_is_lex (a b : List α) : opNe key a b = (lexCmp key a b != .eq) := by
-  simp only [opLt, opEq, opGt, opGe, opLe, opNe, lexLt_eq_cmp, equal4_eq_cmp]
+  simp only [opLt, opEq, opGt, opGe, opLe, opNe, lexLt_eq_cmp, equal4_eq_cmp, equal3_guarded]
   try simp only [lexCmp_swap key a b]
   try (cases lexCmp key a b <;> rfl)
 
